@@ -92,3 +92,63 @@ reg(
     [A_REFVT + " (used only to classify cut positions for the coverage matrix)"],
     simple("c03"),
 )
+
+A_REFSGR = "trusted base: refmodel::sgr (ECMA-48 / xterm SGR interpreter written for this purpose)"
+A_UL = "Effects is set-valued while a terminal holds one underline style: generated sequences never select two different underline styles within one reset epoch and emit 4:0 only when the style is plain/none - DESIGN 8.4"
+A_SGR_FORMS = "only complete 38/48/58 groups with values <= 255, <= 32 numbers per sequence, codes 5/6/22-29/59 not generated, no DEL / C0 other than TAB LF CR in visible text - DESIGN 8.5"
+
+reg(
+    "C06",
+    "The strip stream keeps the Write contract under short writes and errors",
+    "fault_enumeration",
+    "cases = histories (input, inner-writer script, API, wrapper, caller-side cuts) run against StripStream / AutoStream::never over a "
+    "scripted Box<dyn Write>; every caller-level result is checked against a byte-granular reference stripper advanced only by what "
+    "the stream reported as consumed, the standard retry protocol is driven to the end and the final parser state probed with a "
+    "distinguishing suffix; exhaustive over all scripts up to the depth bound x 48 short inputs (distinct by construction), seeded "
+    "random for long inputs (distinct by hash); non-trivial = the script injects at least one short count or error and the input "
+    "contains an escape sequence",
+    [A_REFVT, "inputs are valid UTF-8 (the statement speaks of 'exactly the stripped form')",
+     "a caller may retry the same buffer after any error, because an error means no byte of the buffer was written (std::io::Write contract)"],
+    simple("c06"),
+    exhaustive={"quick": False, "thorough": False},
+)
+
+reg(
+    "C07",
+    "Styled-run extraction follows standard SGR semantics",
+    "exploration",
+    "cases = texts fed to WinconBytes::extract_next (one-shot and under 4 chunkers): exhaustive single sequences of <= N attribute groups "
+    "over a 40-group representative set from 3 start states (distinct by construction) and seeded SGR-grammar documents with non-SGR "
+    "noise (distinct by hash of input+cuts); every visible character's style and the style after the input are compared with the "
+    "reference interpreter; non-trivial = contains at least one escape sequence",
+    [A_REFVT, A_REFSGR, A_UL, A_SGR_FORMS, "palette colour n and 256-colour index n < 16 are the same colour to a terminal and compared as equal"],
+    simple("c07"),
+)
+
+reg(
+    "C17",
+    "ANSI fallback for coloured writes frames the data and reports true progress",
+    "fault_enumeration",
+    "cases = (fg, bg, data, writer, inner-writer script): all 17x17 colour pairs x 8 data samples x {Vec, File, &mut dyn Write, Box<dyn Write>} "
+    "fault-free, all pairs x all scripts up to the depth bound over {accept 0,1,2,3,all, Interrupted, WouldBlock, Other}, plus seeded random "
+    "data; the bytes the writer accepted are parsed and interpreted by the reference models; non-trivial = a colour is requested or a "
+    "fault is injected; enumerated cases distinct by construction, random by hash",
+    [A_REFVT, A_REFSGR, "the data write is identified in the inner-writer log as the call that offers exactly the data bytes (data never starts with ESC in scripted runs)"],
+    simple("c17"),
+    exhaustive={"quick": False, "thorough": False},
+)
+
+reg(
+    "C18",
+    "The legacy-console stream hands over each text run once with 16-colour fg/bg",
+    "fault_enumeration",
+    "cases = histories (input, chunking, console script, API) against anstream's wincon.rs compiled from the working tree by #[path] "
+    "inclusion, over a recording console writer; per call the accepted text bytes with their (fg,bg) are compared with the reference "
+    "runs (RefVt+RefSgr, colours capped to 16); all scripts up to the depth bound x 16 short inputs x 4 APIs x (whole | one cut) "
+    "exhaustively, SGR-grammar texts with random chunkings/scripts and hostile streams (text + no-escape rule only) seeded; "
+    "non-trivial = the input contains an escape sequence",
+    [A_REFVT, A_REFSGR, A_UL, A_SGR_FORMS,
+     "the three modules wincon.rs imports from its own crate (adapter, stream, fmt) are provided by the harness: adapter re-exports the real WinconBytes, fmt is the real fmt.rs, stream is a local AsLockedWrite/IsTerminal pair"],
+    simple("c18"),
+    exhaustive={"quick": False, "thorough": False},
+)
